@@ -32,6 +32,8 @@ fuzz_target!(|data: &[u8]| {
     let len = if u.arbitrary().unwrap_or(false) { ((1i32 << (2 * u.int_in_range(0u32..=4).unwrap_or(0))) + u.int_in_range(-1i32..=1).unwrap_or(0)).max(1) as u32 } else { u.int_in_range(1u32..=130).unwrap_or(1) };
     segs.push(Seg { kind, start, len });
   }
+  // one input in four: the builder is used again after a to_bmoc() in the middle
+  let reuse = if u.int_in_range(0u8..=3).unwrap_or(0) == 0 { Some(u.int_in_range(0u16..=1000).unwrap_or(500)) } else { None };
   let mut rec = Rec::new();
-  hpxv::engine::fuzz_verdict("C15", check_pushes(&Pushes { depth, full, capacity, segs }, &mut rec));
+  hpxv::engine::fuzz_verdict("C15", check_pushes(&Pushes { depth, full, capacity, segs, reuse }, &mut rec));
 });
